@@ -6,6 +6,7 @@ model-vs-implementation disagreements, `STAT …` counters.
 -/
 import MinizProof.Driver.Util
 import MinizProof.Spec.Inflate
+import MinizProof.Model.DeflStream
 namespace Driver
 open Spec
 
@@ -293,6 +294,27 @@ def opBb (a : Acc) (ln : Nat) (l : Line) : Acc := Id.run do
     a := a.fail ln l "boundary" s!"stops at bit positions {bits}, non-final blocks end at {want}"
   return a
 
+/-- `DFL`: one real `deflate()` call with the inner `compress` calls it made (hook events),
+    replayed through the model `Model.Defl.deflate`: result, counts, number of inner calls and the
+    (in_len, out_len) passed to each must agree. -/
+def opDfl (a : Acc) (ln : Nat) (l : Line) : Acc := Id.run do
+  let parseTriples (s : String) : List (List Int) :=
+    if s == "-" || s == "" then [] else (s.splitOn ";").map (fun t => (t.splitOn ":").map (·.toInt?.getD 0))
+  let script := (parseTriples (l.get "script")).map (fun t => ({ st := t.getD 0 0, cin := (t.getD 1 0).toNat, cout := (t.getD 2 0).toNat } : Model.Defl.Resp))
+  let args := (parseTriples (l.get "args")).map (fun t => ((t.getD 0 0).toNat, (t.getD 1 0).toNat))
+  let res := (parseTriples (l.get "res")).getD 0 []
+  let mut a := a.bump "dfl_calls"
+  a := a.bump "dfl_inner_calls" script.length
+  match Model.Defl.deflate (l.nat "prevdone" == 1) (l.nat "in") (l.nat "out") (l.nat "flush") script with
+  | .ok r calls =>
+    if r.status != res.getD 0 0 || (r.consumed : Int) != res.getD 1 0 || (r.written : Int) != res.getD 2 0 then
+      a := a.diff ln l "result" s!"model ({r.status}, {r.consumed}, {r.written}) vs implementation {res}"
+    if calls != args then
+      a := a.diff ln l "inner_calls" s!"model calls the engine with {calls}, implementation with {args}"
+  | .stuck calls => a := a.diff ln l "inner_calls" s!"model wants another engine call after {calls.length - 1}; implementation made {args.length}"
+  | .contract => a := a.diff ln l "contract" "engine reported more than it was offered"
+  return a
+
 def dispatch (a : Acc) (ln : Nat) (l : Line) : Acc :=
   match l.op with
   | "ENC" => opEnc a ln l
@@ -302,6 +324,7 @@ def dispatch (a : Acc) (ln : Nat) (l : Line) : Acc :=
   | "CK" => opCk a ln l
   | "DEC" => opDec a ln l
   | "BB" => opBb a ln l
+  | "DFL" => opDfl a ln l
   | "" => a
   | "#" => a
   | _ => a.bump ("unknown_op_" ++ l.op)
